@@ -88,15 +88,15 @@ def vclass(spec):
                 if "*" in x["d"]:
                     out.add("asterisks")
             elif "inst" in x:
-                # nested MOF: the inner literals are escaped once more
+                # nested MOF: inner literals are escaped once more; what
+                # matters is whether the inner text holds an apostrophe
                 for p in x["inst"]["props"]:
                     visit(p["val"], p["type"])
                     pv = p["val"] if isinstance(p["val"], list) else [p["val"]]
                     for y in pv:
-                        if y is not None and "s" in y:
-                            out.add("c16" if p["type"] == "char16" else
-                                    "".join(sorted(set(y["s"]) &
-                                                   set(H.SPECIALS))) or "str")
+                        if y is not None and "s" in y and (
+                                p["type"] == "char16" or "A" in y["s"]):
+                            out.add("apos")
 
     def quals(qs):
         for q in qs:
@@ -362,6 +362,51 @@ def run_cases(cases, comp):
     return events, infos
 
 
+def corrupted_copies(events, verdicts):
+    """[(event, clause prefix TLC must name)]: one field of an accepted event
+    changed"""
+    import copy
+    out = []
+    done = set()
+    for e, v in zip(events, verdicts):
+        if not v["ok"]:
+            continue
+        if e["op"] == "fold" and "fold" not in done and e["lit"]["elems"][0]["s"]:
+            c = copy.deepcopy(e)
+            c["gottok"] += "00"
+            out.append((c, "Values.string"))
+            c = copy.deepcopy(e)
+            c["lit"]["got"][0]["s"] = c["lit"]["got"][0]["s"][:-1]
+            out.append((c, "Literal.ArrivesAsDenoted"))
+            done.add("fold")
+        if e["op"] != "obj":
+            continue
+        for i, el in enumerate(e["comp"]):
+            if el["val"] and "val" not in done:
+                c = copy.deepcopy(e)
+                c["comp"][i]["val"][0] += "0"
+                out.append((c, "QualifierValues." if el["et"] == "qual"
+                            else "Values."))
+                c = copy.deepcopy(e)
+                del c["comp"][i]
+                out.append((c, "Names"))
+                done.add("val")
+            if el["et"] == "qdecl" and "flv" not in done:
+                c = copy.deepcopy(e)
+                c["comp"][i]["ovr"] = "F" if el["ovr"] in ("N", "T") else "T"
+                out.append((c, "Flavors.declaration"))
+                c = copy.deepcopy(e)
+                c["comp"][i]["scopes"] = el["scopes"][1:] + ["XSCOPE"]
+                out.append((c, "Scopes"))
+                done.add("flv")
+            if el["arr"] == "a" and "arr" not in done:
+                c = copy.deepcopy(e)
+                c["comp"][i]["asize"] = el["asize"] + 1
+                out.append((c, "ArrayShape"))
+                done.add("arr")
+    return out
+
+
 def validate(ctx, events, label):
     return ctx.validate_traces("MofTextTrace", "MofTextTrace.cfg",
                                [[e] for e in events], label=label,
@@ -380,6 +425,8 @@ def signature(case, ev, clauses):
         return "fold:%s" % p
     if case["gen"] == "tree":
         return "tree:%s:%s" % (case["spec"]["k"], p)
+    if p.split(".")[0] in ("Names", "ArrayShape", "Flavors", "Scopes"):
+        return "unit:%s:%s" % (p, case["where"])      # structure, not values
     vc = vclass(case["spec"])
     return "unit:%s%s:%s:%s:%s" % (case["type"], "~" + vc if vc else "", p,
                                    case["where"], case["shape"])
@@ -509,8 +556,22 @@ def run(ctx):
                                   "from_tree": True})
                 owner.append(i)
     sub_events, sub_infos = run_cases(sub_cases, comp)
-    sub_verdicts = validate(ctx, sub_events, "verdicts: elements of failing "
-                            "trees") if sub_cases else []
+    # vacuity guard: corrupted copies of accepted events must be rejected
+    corrupt = corrupted_copies(events, verdicts)
+    v2 = validate(ctx, sub_events + [c[0] for c in corrupt],
+                  "verdicts: elements of failing trees + corrupted copies of "
+                  "accepted events (must be rejected)")
+    sub_verdicts = v2[:len(sub_events)]
+    ctx.traces -= len(corrupt)
+    ctx.events -= len(corrupt)
+    for (cev, expect), v in zip(corrupt, v2[len(sub_events):]):
+        if v["ok"] or not any(c.startswith(expect) for c in v["clauses"]):
+            raise vlib.MachineryError(
+                "corrupted event (%s) was not rejected: %s" % (expect, v))
+    ctx.extra["sensitivity"].append(
+        "%d corrupted copies of accepted events (altered compiled string, "
+        "altered value token, dropped element, flipped flavor) rejected by "
+        "TLC with the expected clause" % len(corrupt))
     explained = set()
     for c, e, inf, v, o in zip(sub_cases, sub_events, sub_infos, sub_verdicts,
                                owner):
